@@ -9,15 +9,29 @@ RSP, QSP = ["g", "G", "GK"], ["F", "S", "FK", "DCS"]
 ENTRIES = [f"FourierFilter.{a}_using_{b}" for a in RSP for b in QSP]
 RULE = ("one of the 12 variants at random, random r/Q grids (with/without 0), data, uncertainties (or None), cutoff between or on "
         "grid points, material constants; lorch/correction at random; non-trivial = >= 2 r points at or below the cutoff and >= 1 above")
-DIST = ["entry", "lorch", "omitted"]
+DIST = ["entry", "lorch", "omitted", "qorder"]
 SHRINK = None
 
 
 def gen(rng, i, tier):
     e = ENTRIES[int(rng.integers(0, len(ENTRIES)))]
     c = cases.make_case(rng, e, maxn=40 if tier == "quick" else 300)
-    return dict(entry=e, args=[tolist(a) if not np.isscalar(a) else a for a in c["args"]], kw=c["kw"],
-                lorch=c["meta"]["lorch"], omitted=c["meta"]["omitted"], pert=float(rng.normal() * 3))
+    args = list(c["args"])
+    qorder = "ascending"
+    if rng.random() < 0.18 and len(args[2]) >= 4:
+        # the same reciprocal-space data listed in another order: descending (time-of-flight order), or two detector banks stored
+        # high-angle bank first; the split is pointwise in Q, so nothing else changes
+        n = len(args[2])
+        if rng.random() < 0.5:
+            order, qorder = np.arange(n)[::-1], "descending"
+        else:
+            k = int(rng.integers(1, n - 1))
+            order, qorder = np.concatenate([np.arange(k, n), np.arange(0, k)]), "two-banks"
+        for j in (2, 3, 6):
+            if args[j] is not None:
+                args[j] = np.asarray(args[j])[order]
+    return dict(entry=e, args=[tolist(a) if not np.isscalar(a) else a for a in args], kw=c["kw"],
+                lorch=c["meta"]["lorch"], omitted=c["meta"]["omitted"], pert=float(rng.normal() * 3), qorder=qorder)
 
 
 def run(case, args=None):
